@@ -13,7 +13,7 @@
        (modules/l4proxy/proxy.go dialPeers).
    The byte stream after the header is a plain byte list here (segmentation, bufio and
    Connection.Wrap are C01's model). *)
-From Coq Require Import List NArith ZArith Bool Arith String.
+From Coq Require Import String List NArith ZArith Bool Arith.
 From Coq.Strings Require Import Byte.
 From L4 Require Import Hex.
 From L4.gen Require Import Consts Shape.
